@@ -125,3 +125,40 @@ func H_C06_pipe(w1, w2, b1 int) {
 	}
 	vReach("end")
 }
+
+// H_C06_pipe3: three messages back to back, the first at offset k: each parse
+// from the previously returned offset on a reset object ends exactly at the
+// message boundary known by construction.
+func H_C06_pipe3(w, k int) {
+	a := vBytes(w)
+	noEOL(a)
+	junk := vBytes(2)
+	m1 := append([]byte("INVITE sip:a SIP/2.0\r\nm:"), a...)
+	m1 = append(m1, "\r\nl: 3\r\n\r\nabc"...)
+	m2 := []byte("SIP/2.0 200 OK\r\nf:a\r\nContent-Length:0\r\n\r\n")
+	m3 := append([]byte("BYE sip:b SIP/2.0\r\nl:1\r\ni:"), a...)
+	m3 = append(m3, "\r\n\r\nZ"...)
+	all := append(append(append([]byte(nil), m1...), m2...), m3...)
+	buf := vPad(k, junk, all)
+	var p PSIPMsg
+	p.Init(nil, nil, nil)
+	r1, e1 := ParseSIPMsg(buf, k, &p, 0)
+	vObs("r1", r1)
+	vObs("e1", int(e1))
+	if e1 != 0 {
+		vReach("first-rejected")
+		return
+	}
+	vAssert("first-boundary", r1 == k+len(m1) && int(p.Body.Offs) == r1-3 && p.Body.Len == 3 && len(p.RawMsg) == len(m1))
+	p.Reset()
+	r2, e2 := ParseSIPMsg(buf, r1, &p, 0)
+	vAssert("second-boundary", e2 == 0 && r2 == r1+len(m2) && p.Body.Len == 0 && !p.Request() && len(p.RawMsg) == len(m2))
+	p.Reset()
+	r3, e3 := ParseSIPMsg(buf, r2, &p, 0)
+	vObs("e3", int(e3))
+	if e3 == 0 {
+		vAssert("third-boundary", r3 == r2+len(m3) && p.Body.Len == 1 && p.FL.MethodNo == MBye && len(p.RawMsg) == len(m3))
+		vReach("third-accepted")
+	}
+	vReach("end")
+}
